@@ -110,12 +110,9 @@ def dieAt (a : Alloc) (id : Nat) : Out Alloc :=
     if g > 0 then .ok { a with gens := a.gens.set id (-g) }
     else .panic "die(): debug assertion failed: self.is_alive()"
 
-/-- `Allocator::allocate`. -/
-def allocate (a : Alloc) : Out (Alloc × Entity) :=
-  let (a, x) := a.cachePop
-  let (a, id) := match x with
-    | some id => (a, id)
-    | none => ({ a with maxId := a.maxId + 1 }, a.maxId)
+/-- Tail of `allocate` once the index is chosen: `update_generation_length`, `alive.add`,
+    `generations[id].raise()`. -/
+def allocateWith (a : Alloc) (id : Nat) : Out (Alloc × Entity) :=
   let a := a.updLen id
   let a := { a with alive := a.alive.add id }
   match a.raiseAt id with
@@ -123,15 +120,22 @@ def allocate (a : Alloc) : Out (Alloc × Entity) :=
   | .panic w => .panic w
   | .ub w => .ub w
 
+/-- `Allocator::allocate`. -/
+def allocate (a : Alloc) : Out (Alloc × Entity) :=
+  match a.cachePop with
+  | (a, some id) => a.allocateWith id
+  | (a, none) => ({ a with maxId := a.maxId + 1 }).allocateWith a.maxId
+
+/-- Tail of `allocate_atomic` once the index is chosen: `raised.add_atomic`, read generation. -/
+def allocateAtomicWith (a : Alloc) (id : Nat) : Alloc × Entity :=
+  let a := { a with raised := a.raised.add id }
+  (a, ⟨id, a.joinGen id⟩)
+
 /-- `Allocator::allocate_atomic`. -/
 def allocateAtomic (a : Alloc) : Out (Alloc × Entity) :=
   match a.cachePopAtomic with
-  | .ok (a, x) =>
-    let (a, id) := match x with
-      | some id => (a, id)
-      | none => ({ a with maxId := a.maxId + 1 }, a.maxId)
-    let a := { a with raised := a.raised.add id }
-    .ok (a, ⟨id, a.joinGen id⟩)
+  | .ok (a, some id) => .ok (a.allocateAtomicWith id)
+  | .ok (a, none) => .ok (({ a with maxId := a.maxId + 1 }).allocateAtomicWith a.maxId)
   | .panic w => .panic w
   | .ub w => .ub w
 
